@@ -2037,6 +2037,9 @@ impl World for C16 {
     fn variant(&self, base: &CursorScn, sub: u64, tier: Tier) -> CursorScn {
         c16_variant(base, sub, tier)
     }
+    fn variant_count(&self, base: &CursorScn, tier: Tier) -> u64 {
+        c16_total(base, tier)
+    }
     fn check(&self, scn: &CursorScn, cov: &mut Cov, prog: &Progress) -> Option<(String, String)> {
         check_plain(scn, Judge { evals: true, streams: false, build: true, battery: true }, cov, prog)
     }
